@@ -111,7 +111,7 @@ class Registry:
             from . import extract
             param, members = self.families[qn]
             finfo = extract.get_function(qn)
-            env = ex.bind_params(finfo.node, args, kwargs if isinstance(kwargs, dict) else {}, qn)
+            env = ex.bind_params(finfo.node, args, kwargs, qn)
             key = env.get(param)
             if isinstance(key, str) and key in members:
                 return members[key]
